@@ -189,16 +189,17 @@ fn main() {
     });
 
     // S2: small-scope grid
-    let nmax: i64 = tier.pick(2_000, 20_000);
+    let nmax: i64 = tier.pick(2_000, 2_000_000);
+    let s2max: i128 = tier.pick(6, 8);
     run.bound("S2_unscaled_max", nmax);
-    run.bound("S2_scales", "-6..=6");
+    run.bound("S2_scales", format!("-{0}..={0}", s2max));
     run.par("S2 small-scope grid", (nmax + 1) as usize, |i| {
         let mut t = Tally::default();
         for sign in [1i64, -1] {
             if i == 0 && sign < 0 {
                 continue;
             }
-            for s in -6i128..=6 {
+            for s in -s2max..=s2max {
                 check_all(&run, &Dec::new(i as i64 * sign, s), &mut t);
             }
         }
@@ -216,7 +217,7 @@ fn main() {
         }
         t
     });
-    let lens: &[usize] = if tier.is_thorough() { &[19, 20, 21, 38, 39, 40, 60, 100] } else { &[19, 20, 39, 40, 60] };
+    let lens: &[usize] = if tier.is_thorough() { &LONG_LENS_THOROUGH } else { &[19, 20, 39, 40, 60] };
     let longs = long_ints(lens, run.seed());
     run.bound("S3_long_lengths", json!(lens));
     run.par("S3 long values x scales -40..40", longs.len(), |i| {
@@ -231,7 +232,7 @@ fn main() {
 
     // S5: small integers written with k trailing zero fraction digits, every k to K (digit-count estimates
     // that decide "is it below one" change with the bit length)
-    let kmax: usize = tier.pick(1300, 4000);
+    let kmax: usize = tier.pick(1300, 12000);
     run.bound("S5_trailing_fraction_zeros", format!("0..={}", kmax));
     run.par("S5 integers with k fraction zeros", kmax + 1, |k| {
         let mut t = Tally::default();
